@@ -74,7 +74,7 @@ def main():
                 for k in range(7):
                     mm = ufl.Mesh(basix.ufl.element("P", "triangle", 1, shape=(2,)))
                     VV = ufl.FunctionSpace(mm, basix.ufl.element("P", "triangle", 1))
-                    ufl.Coefficient(VV); ufl.Constant(mm); ufl.TrialFunction(VV)
+                    ufl.variable(ufl.Coefficient(VV)); ufl.Constant(mm); ufl.TrialFunction(VV)
             elif hist == "compile_other":
                 o2, op2, _ = ffx.build_case(OTHER)
                 ffx.compile_case(o2, op2)
